@@ -26,7 +26,7 @@ def nontrivial(line):
         return None
     for i, o in enumerate(ops):
         p = o.split(":")
-        if p[0] in ("si", "st") and len(p) == 3:
+        if p[0] in ("si", "st", "fe") and len(p) == 3:
             l = 0 if p[2] == "-" else len(p[2])
             if l > 0 and l % c != 0 and i + 1 < len(ops):
                 return (f.get("A"), c, f.get("ops"))
@@ -38,7 +38,7 @@ def histogram(line):
     keys = ["A=" + f.get("A", "?"), "C=" + f.get("C", "?"), "ops=%d" % len(ops)]
     for o in ops:
         p = o.split(":")
-        if p[0] in ("si", "st"):
+        if p[0] in ("si", "st", "fe"):
             l = 0 if p[2] == "-" else len(p[2])
             keys.append("op:%s:%s" % (p[0], p[1]))
             if l == 0:
